@@ -111,3 +111,9 @@ Definition curdeclare_tree (c : curdeclare) : tree :=
 Definition curdeclare_of_tree (t : tree) : curdeclare :=
   {| cd_name := t_bytes (t_nth 0 t); cd_options := t_int (t_nth 1 t); cd_status := t_int (t_nth 2 t);
      cd_stmt := t_bytes (t_nth 3 t); cd_columns := map t_bytes (t_list (t_nth 4 t)) |}.
+
+Lemma curdeclare_of_tree_tree c : curdeclare_of_tree (curdeclare_tree c) = c.
+Proof.
+  destruct c as [nm op st sm cols]. unfold curdeclare_of_tree, curdeclare_tree, t_nth. cbn [t_list nth t_bytes t_int].
+  f_equal. rewrite map_map. cbn [t_bytes]. apply map_id.
+Qed.
